@@ -299,3 +299,42 @@ def decide_equal(chk, key, got, want, loc=""):
             got.show()[:160], want.show()[:160]), loc)
         return None
     return ok
+
+
+_HORNER_KIND = {}
+
+
+def horner_call(F, body, args):
+    """a helper that evaluates a polynomial over a constant coefficient table by Horner's scheme, recognised by what it
+    computes (not by its name): returns (kind, x value, [coefficient values]) with kind 'poly' (c0 x^n + ...) or 'monic'
+    (x^n + c0 x^(n-1) + ...), or None.  Probed once per body with a symbolic two-element table in the exact domain."""
+    if len(args) != 2 or not body.get("path", "").startswith("bessel::"):
+        return None
+    a = [unref(v) for v in args]
+    tabs = [i for i, v in enumerate(a) if isinstance(v, Tup) and v.vs and all(isinstance(unref(c), Sc) for c in v.vs)]
+    if len(tabs) != 1:
+        return None
+    ti = tabs[0]
+    key = (body["did"], ti)
+    if key not in _HORNER_KIND:
+        kind = None
+        try:
+            X_, c0, c1 = Poly.var("x"), Poly.var("c0"), Poly.var("c1")
+            pa = [None, None]
+            pa[ti] = Tup([Sc(c0), Sc(c1)])
+            pa[1 - ti] = Sc(X_)
+            it = Interp(F, DOMK)
+            it.scalar_mode = True
+            r = unref(it.call_body(body, pa))
+            if isinstance(r, Sc):
+                if equal(r.v, c0 * X_ + c1):
+                    kind = "poly"
+                elif equal(r.v, X_ * X_ + c0 * X_ + c1):
+                    kind = "monic"
+        except (Unsupported, PanicEx):
+            kind = None
+        _HORNER_KIND[key] = kind
+    kind = _HORNER_KIND[key]
+    if kind is None:
+        return None
+    return kind, a[1 - ti], a[ti].vs
